@@ -58,6 +58,7 @@ func c11Main(r *run.Runner) {
 		c11Source(w, pr.Layout(pr.Uniform(" ")).Source, r.Thorough())
 	})
 	// large programs (walk order with deep stacks) in blank-separated and blank-free layout
+	scaleThorough = r.Thorough()
 	scale := scalePrograms()
 	r.Sweep("scale", int64(len(scale)), func(w *run.Worker, item int64) {
 		pr := gen.Print(scale[item])
